@@ -157,12 +157,12 @@ SPEC = dict(
     level="exploration",
     rule="Transcoder level (public API makeNewTranscoderFor -> transcodeFrom/transcodeTo/canTranscodeTo, TranscodeFromStr/ToStr), each item one distinct case: "
          "(1) UTF-8 decode: EVERY byte string of length <= 3 (16,843,009) plus, quick: every 4-byte string over the 32 boundary bytes of Unicode Table 3-7 (32^4) and every 4-byte "
-         "string with first byte F0..F7 and second byte from 16 boundary values (8 x 16 x 65536); thorough: every 4-byte string whose first byte is C0..FF (2^30) or one of "
+         "string with first byte F0/F1/F4/F5 and second byte from 6 boundary values (24 x 65536); thorough: every 4-byte string whose first byte is C0..FF (2^30) or one of "
          "00,41,7F,80,BF (5 x 2^24); compared (units, bytesEaten, charSizes, exception) with a hand-written 9-state Table 3-7 DFA. "
          "(2) encode: EVERY Unicode scalar value (1,112,064) x 22 encodings: canTranscodeTo, transcodeTo (throw and replacement mode), decode(encode(c))==c, source blocks of 1..8 units "
-         "ending inside the surrogate pair, output blocks of 1..8 bytes; reference = arithmetic for UTF-8/16/32, ICU ucnv (STOP callbacks, no fallbacks, round trip required) for code pages. "
+         "ending inside the surrogate pair, output blocks of 1..8 bytes (quick: block variants and exception mode for every BMP code point and every 16th/64th supplementary one; thorough: all); reference = arithmetic for UTF-8/16/32, ICU ucnv (STOP callbacks, no fallbacks, round trip required) for code pages. "
          "(3) UTF-16LE/BE: 32 (quick) / all 65536 (thorough) first units x ALL 65536 second units, odd byte counts, output blocks 1..8. "
-         "(4) UCS-4LE/BE: one call per 32-bit value: every value < 0x200000 (quick) / < 0x1000000 (thorough) plus the 20^4 / 83^4-class byte product. "
+         "(4) UCS-4LE/BE: one call per 32-bit value: every value < 0x120000 (quick) / < 0x1000000 (thorough) plus the 20^4 / 83^4-class byte product. "
          "(5) every byte of 11 single-byte encodings and 52 alias spellings; every 1- and 2-byte (and incomplete-prefix 3/4-byte) sequence of 6 ICU multi-byte encodings. "
          "(6) split: every word of length <= 3 (quick) / 4 (thorough) over 8 characters (1..4 bytes, BMP and supplementary) x 22 encodings x every split offset x every maxChars, every "
          "prefix through TranscodeFromStr, TranscodeToStr, source blocks 1..4 x output blocks 1..8. "
@@ -189,7 +189,7 @@ SPEC = dict(
     runs=dict(
         quick=[
             _x("utf8-decode", "--space", "utf8dec", "--mode", "quick"),
-            _x("encode-every-scalar", "--space", "enc", "--encs", "all"),
+            _x("encode-every-scalar", "--space", "enc", "--encs", "all", "--thin", 16),
             _x("utf16-unit-pairs", "--space", "utf16", "--mode", "quick"),
             _x("ucs4-values", "--space", "ucs4", "--mode", "quick"),
             _x("single-byte-pages", "--space", "sbcs"),
@@ -204,7 +204,7 @@ SPEC = dict(
             _x("utf8-decode-2^30", "--space", "utf8dec", "--mode", "thorough", flavor="fast"),
             _x("utf8-decode-asan-slice", "--space", "utf8dec", "--mode", "slice4", "--slice", 128),
             _x("utf8-decode-asan-quick", "--space", "utf8dec", "--mode", "quick"),
-            _x("encode-every-scalar", "--space", "enc", "--encs", "all"),
+            _x("encode-every-scalar", "--space", "enc", "--encs", "all", "--thin", 1),
             _x("utf16-all-unit-pairs", "--space", "utf16", "--mode", "thorough", flavor="fast"),
             _x("utf16-unit-pairs-asan", "--space", "utf16", "--mode", "quick"),
             _x("ucs4-values", "--space", "ucs4", "--mode", "thorough"),
